@@ -117,6 +117,10 @@ type escaper struct {
 	// start[templateName] is the context in which the analysis recorded in
 	// output[templateName] started: the context of the first call site.
 	start map[string]context
+	// parent is the escaper on whose behalf this one analyses a list a second time
+	// (escapeListForReentry, escapeListConditionally), or nil. Its derived templates and
+	// pending edits are visible to this escaper.
+	parent *escaper
 }
 
 // makeEscaper creates a blank escaper for the given set.
@@ -130,6 +134,7 @@ func makeEscaper(n *nameSpace) escaper {
 		map[*parse.TemplateNode]string{},
 		map[*parse.TextNode][]byte{},
 		map[string]context{},
+		nil,
 	}
 }
 
@@ -594,6 +599,7 @@ func (e *escaper) escapeListForReentry(c context, n *parse.ListNode) (context, *
 		e1.output[k] = v
 	}
 	e1.start = e.start
+	e1.parent = e
 	c = e1.escapeList(c, n)
 	return c, &e1
 }
@@ -675,18 +681,21 @@ func (e *escaper) rewriteOf(name string, depth int) string {
 		for _, m := range l.Nodes {
 			switch m := m.(type) {
 			case *parse.ActionNode:
-				b.WriteString(m.String())
-				if s, ok := e.actionNodeEdits[m]; ok {
-					b.WriteString("|" + strings.Join(s, "|"))
+				// As the node will read once the edit is committed: a copy that an earlier
+				// execution has committed already reads like that.
+				if s, ok := e.pendingActionEdit(m); ok {
+					m = m.Copy().(*parse.ActionNode)
+					ensurePipelineContains(m.Pipe, s)
 				}
+				b.WriteString(m.String())
 			case *parse.TemplateNode:
 				callee := m.Name
-				if s, ok := e.templateNodeEdits[m]; ok {
+				if s, ok := e.pendingTemplateEdit(m); ok {
 					callee = s
 				}
 				b.WriteString("{{template " + e.rewriteOf(callee, depth+1) + "}}")
 			case *parse.TextNode:
-				if s, ok := e.textNodeEdits[m]; ok {
+				if s, ok := e.pendingTextEdit(m); ok {
 					b.Write(s)
 				} else {
 					b.Write(m.Text)
@@ -718,6 +727,46 @@ func (e *escaper) rewriteOf(name string, depth int) string {
 	return b.String()
 }
 
+// isCopy reports whether name is the name of a context-specific copy that the engine has
+// made, in an earlier analysis or in the one that is going on.
+func (e *escaper) isCopy(name string) bool {
+	for p := e; p != nil; p = p.parent {
+		if p.derived[name] != nil {
+			return true
+		}
+	}
+	return e.ns.derivedNames[name]
+}
+
+// pendingActionEdit, pendingTemplateEdit and pendingTextEdit return the edit that e, or
+// else the escaper it works for, has recorded for the node.
+func (e *escaper) pendingActionEdit(n *parse.ActionNode) ([]string, bool) {
+	for p := e; p != nil; p = p.parent {
+		if s, ok := p.actionNodeEdits[n]; ok {
+			return s, true
+		}
+	}
+	return nil, false
+}
+
+func (e *escaper) pendingTemplateEdit(n *parse.TemplateNode) (string, bool) {
+	for p := e; p != nil; p = p.parent {
+		if s, ok := p.templateNodeEdits[n]; ok {
+			return s, true
+		}
+	}
+	return "", false
+}
+
+func (e *escaper) pendingTextEdit(n *parse.TextNode) ([]byte, bool) {
+	for p := e; p != nil; p = p.parent {
+		if s, ok := p.textNodeEdits[n]; ok {
+			return s, true
+		}
+	}
+	return nil, false
+}
+
 // escapeListConditionally escapes a list node but only preserves edits and
 // inferences in e if the inferences and output context satisfy filter.
 // It returns the best guess at an output context, and the result of the filter
@@ -729,6 +778,7 @@ func (e *escaper) escapeListConditionally(c context, n *parse.ListNode, filter f
 		e1.output[k] = v
 	}
 	e1.start = e.start
+	e1.parent = e
 	c = e1.escapeList(c, n)
 	ok := filter != nil && filter(&e1, c)
 	if ok {
@@ -968,7 +1018,7 @@ func (e *escaper) escapeTree(c context, node parse.Node, name string, line int) 
 			err:   errorf(ErrBadHTML, node, line, "{{template %q}} follows %d bytes of an attribute value that is still incomplete", name, len(c.attr.value)),
 		}, dname
 	}
-	if dname != name && e.derived[dname] == nil && !e.ns.derivedNames[dname] && e.template(dname) != nil {
+	if dname != name && !e.isCopy(dname) && e.template(dname) != nil {
 		// A template of the set happens to have the name of the copy: it was
 		// not analysed for this context and must not be taken for the copy.
 		return context{
@@ -976,7 +1026,7 @@ func (e *escaper) escapeTree(c context, node parse.Node, name string, line int) 
 			err:   errorf(ErrNoSuchTemplate, node, line, "template name %q is reserved for a context-specific copy of %q", dname, name),
 		}, dname
 	}
-	if e.derived[name] != nil || e.ns.derivedNames[name] {
+	if e.isCopy(name) {
 		// The counterpart: template text calls a context-specific copy by its name. The
 		// copy was analysed for the context in its name, not for the one here. (The
 		// engine's own calls of copies sit in rewritten trees, which are not analysed again.)
@@ -1467,8 +1517,9 @@ func (e *escaper) template(name string) *template.Template {
 	// Any template from the name space associated with this escaper can be used
 	// to look up templates in the underlying text/template name space.
 	t := e.arbitraryTemplate().text.Lookup(name)
-	if t == nil {
-		t = e.derived[name]
+	for p := e; t == nil && p != nil; p = p.parent {
+		// (A copy made earlier in an analysis that is still going on.)
+		t = p.derived[name]
 	}
 	return t
 }
